@@ -138,4 +138,34 @@ PROPS = {
             "code without a synchronisation operation or harness yield inside it cannot be pre-empted by the simulator: unsynchronised sharing there is decided by ThreadSanitizer, not by a wrong value",
         ],
     },
+    "C09": {
+        "harness": "c09_objective",
+        "level": "exploration",
+        "rule": ("one run = one seeded dataset (1-200 samples, 1-10 mixed features with missing values, regression / single-label / multi-label / structured "
+                 "targets), one loss of the matching family, one objective (linear with l1,l2 in {0} u [1e-6,1e6] and one of 4 scaling modes; gradient-boosting "
+                 "bias, scale with random clusters incl. unassigned samples, per-sample gradients) and one parameter vector, evaluated under 3-5 configurations "
+                 "(simulated cores 1-16, dataset pool 1-16, batch 1-10000, cached or uncached inputs/targets) under one seeded schedule with a loss that yields "
+                 "inside every call; evaluations = configurations evaluated; every value and gradient is compared (1e-9 relative) with the per-sample definition "
+                 "computed from the direct dataset views, and configurations pairwise; non-trivial = at least 2 simulated threads and 1 context switch; distinct = "
+                 "distinct trace hash"),
+        "batches": [
+            {"name": "plain", "cfg": "plain", "tiers": ["quick", "thorough"], "runs": {"quick": 40000, "thorough": 2000000},
+             "wall_cap": {"quick": 200, "thorough": 2400}},
+            {"name": "tsan", "cfg": "tsan", "tiers": ["quick", "thorough"], "runs": {"quick": 6000, "thorough": 300000},
+             "extra": ["--set", "max_cores=6"], "wall_cap": {"quick": 200, "thorough": 2400}},
+            {"name": "asan", "cfg": "asan", "tiers": ["quick", "thorough"], "runs": {"quick": 8000, "thorough": 300000},
+             "wall_cap": {"quick": 200, "thorough": 2400}},
+        ],
+        "gate": {"quick": 60, "thorough": 500},
+        "shrink": [("configs", 2), ("max_samples", 10), ("cores", 2), ("sim_faults", 0), ("p_spurious_ppm", 0), ("p_eagain_ppm", 0)],
+        "expected_probes": ["configurations", "configurations_through_the_pool", "configurations_cached", "mode_linear", "mode_bias", "mode_scale", "mode_grads",
+                            "rt_futex_blocked", "rt_mutex_contended"],
+        "real": REAL_COMMON + ["linear::function_t, gboost::{bias,scale,grads}_function_t, flatten/targets iterators with caches, pool_t::map partitioning, sum_reduce, "
+                               "every registered loss (behind a yielding wrapper)"],
+        "stub": STUB_COMMON,
+        "assumptions": ASSUME_COMMON + [
+            "trusted for this property (decided elsewhere or not by this family): single-sample loss kernels (C06), the dense encodings of dataset_t::flatten/targets (C08), the scaling arithmetic of scalar_stats_t::scale (C14)",
+            "schemas whose inputs flatten to zero columns (a single one-class categorical feature) are skipped",
+        ],
+    },
 }
